@@ -37,9 +37,13 @@ def gen_history(rng, thorough):
             cs.append(("set_extrusion", rng.choice(["absolute", "relative"])))
         elif k < 0.16:
             cs.append(("set_axis", {}, [("E", rng.choice([Fraction(0), Fraction(0), Fraction(5, 2)]))]))
-        elif k < 0.20:
-            cs.append(rng.choice([("remove_hook", 3), ("add_hook", ("record", 3)), ("add_hook", ("record", 1))]))
         elif k < 0.24:
+            # the hook list changes while other hooks stay registered (some of them through a move_hook() block that is still
+            # open): additions and removals nest in every order
+            cs.append(rng.choice([("remove_hook", 3), ("add_hook", ("record", 3)), ("add_hook", ("record", 1)), ("remove_hook", 1),
+                                  ("add_hook", ("record", 5)), ("remove_hook", 5), ("add_hook", ("set", 6, "A", Fraction(7, 2))), ("remove_hook", 6),
+                                  ("remove_hook", 4), ("add_hook", ("drop", 4, "F"))]))
+        elif k < 0.28:
             cs.append(("move", "rapid", g.req(1), [("E", g.dy(-2, 0))] if rng.random() < 0.3 else []))
         else:
             c = g.cmd()
